@@ -22,7 +22,7 @@ RULE = ("(a) exhaustive: all call sequences of length <= 3 over 6 actions x cate
         "(broker, category, budget, sequence); trivial = none")
 ASSUMPTIONS = ["Redis and RabbitMQ are wire-level fakes", "broker calls are counted by harness-side recorders at the broker boundary (top level only)"]
 EVAL_COUNTER = "calls_judged"
-REQUIRED = ["calls_judged", "refusals_checked", "second_actions_checked", "eager_sequences", "callback_orders_checked", "eager_in_dependency"]
+REQUIRED = ["calls_judged", "refusals_checked", "second_actions_checked", "eager_sequences", "callback_orders_checked", "eager_in_dependency", "sequences_with_refused_retry"]
 CASE_TIMEOUT = 120
 
 ACTIONS = ("ack", "nack", "reject", "reschedule", "retry", "force_retry")
@@ -41,6 +41,11 @@ def gen_cases(tier, seed):
                     cases.append({"type": "api", "kind": kind, "cat": cat, "budget": budget, "seqs": [list(s) for s in seqs[i:i + chunk]]})
     maxpre = 3 if tier == "quick" else 4
     pres = [p for n in range(0, maxpre + 1) for p in itertools.product("RESA", repeat=n)]
+    # ... and with a refused retry ("X": budget spent, ValueError caught, the handle stays usable) somewhere in between
+    for n in range(0, maxpre):
+        for p in itertools.product("RESA", repeat=n):
+            for pos in range(n + 1):
+                pres.append(p[:pos] + ("X",) + p[pos:])
     for kind in (("mem",) if tier == "quick" else ("mem", "redis")):
         for i in range(0, len(pres), 17):
             cases.append({"type": "eager", "kind": kind, "pres": ["".join(p) for p in pres[i:i + 17]]})
@@ -147,8 +152,12 @@ async def eager_sequences(loop, kind, pres, out, stats, fps, samples):
                 n += 1
                 steps_pre = []
                 ci = 0
+                if "X" in pre and action == "retry":
+                    continue  # (a second refused retry would end the execution as an ordinary failure)
                 for ch in pre:
-                    if ch == "R":
+                    if ch == "X":
+                        steps_pre.append(["refused_retry"])
+                    elif ch == "R":
                         steps_pre.append(["set_result", {"v": len(steps_pre)}])
                     elif ch == "E":
                         steps_pre.append(["set_exception", "KeyError", f"x{len(steps_pre)}"])
@@ -159,7 +168,7 @@ async def eager_sequences(loop, kind, pres, out, stats, fps, samples):
                 if action in ("retry", "force_retry"):
                     st["next"] = 3600.0
                 plan[id_] = (pre, action)
-                await w.job("act", id_, {"by_attempt": [st, {"do": "ok"}]}, retries=1, store_result=True, result_id="res-" + id_, timeout=timedelta(seconds=30)).enqueue()
+                await w.job("act", id_, {"by_attempt": [st, {"do": "ok"}]}, retries=0 if "X" in pre else 1, store_result=True, result_id="res-" + id_, timeout=timedelta(seconds=30)).enqueue()
         # eager responses performed inside a dependency provider (through the message handle injected into it)
         from rv.actors import register_guarded_actor
 
@@ -215,7 +224,13 @@ async def eager_sequences(loop, kind, pres, out, stats, fps, samples):
             exp = []
             ci = 0
             cbs_before_latest_set = None
+            if "X" in pre:
+                stats["sequences_with_refused_retry"] += 1
+                if not any(e["k"] == "retry_refused" for e in ev):
+                    out.append(V("refusal_missing", kind, "in-actor/retry", f"{pre!r}: retry() with the budget spent was not refused inside the actor"))
             for ch in pre:
+                if ch == "X":
+                    continue
                 if ch in "RE":
                     cbs_before_latest_set = ci
                 else:
